@@ -11,8 +11,8 @@ var (
 )
 
 func AssignValue(src, dst reflect.Value) error {
-	if dst.Type().Kind() != reflect.Ptr {
-		return fmt.Errorf("invalid dst type. required pointer type: %T", dst.Type())
+	if !dst.IsValid() || dst.Type().Kind() != reflect.Ptr || dst.IsNil() {
+		return fmt.Errorf("invalid dst type. required non-nil pointer type")
 	}
 	casted, err := castValue(dst.Elem().Type(), src)
 	if err != nil {
@@ -22,7 +22,30 @@ func AssignValue(src, dst reflect.Value) error {
 	return nil
 }
 
+// castValue returns v as a value that can be stored in a variable of type t, or an error:
+// nothing it returns makes reflect's Set panic.
 func castValue(t reflect.Type, v reflect.Value) (reflect.Value, error) {
+	if !v.IsValid() {
+		return nilValue, fmt.Errorf("failed to cast to %s from nil", t)
+	}
+	casted, err := castValueOfKind(t, v)
+	if err != nil {
+		return nilValue, err
+	}
+	if !casted.IsValid() {
+		return nilValue, fmt.Errorf("failed to cast to %s from nil", t)
+	}
+	if casted.Type().AssignableTo(t) {
+		return casted, nil
+	}
+	if casted.Type().Kind() == t.Kind() && casted.Type().ConvertibleTo(t) {
+		// the value was cast by kind: a named type of that kind gets it converted
+		return casted.Convert(t), nil
+	}
+	return nilValue, fmt.Errorf("failed to cast to %s from %s", t, casted.Type())
+}
+
+func castValueOfKind(t reflect.Type, v reflect.Value) (reflect.Value, error) {
 	switch t.Kind() {
 	case reflect.Int:
 		vv, err := castInt(v)
@@ -107,6 +130,9 @@ func castValue(t reflect.Type, v reflect.Value) (reflect.Value, error) {
 }
 
 func castInt(v reflect.Value) (reflect.Value, error) {
+	if !v.IsValid() {
+		return nilValue, fmt.Errorf("failed to cast to int64 from nil")
+	}
 	switch v.Type().Kind() {
 	case reflect.Int, reflect.Int8, reflect.Int16, reflect.Int32, reflect.Int64:
 		return v, nil
@@ -148,6 +174,9 @@ func castInt(v reflect.Value) (reflect.Value, error) {
 }
 
 func castUint(v reflect.Value) (reflect.Value, error) {
+	if !v.IsValid() {
+		return nilValue, fmt.Errorf("failed to cast to uint64 from nil")
+	}
 	switch v.Type().Kind() {
 	case reflect.Int, reflect.Int8, reflect.Int16, reflect.Int32, reflect.Int64:
 		return reflect.ValueOf(uint64(v.Int())), nil
@@ -189,6 +218,9 @@ func castUint(v reflect.Value) (reflect.Value, error) {
 }
 
 func castString(v reflect.Value) (reflect.Value, error) {
+	if !v.IsValid() {
+		return nilValue, fmt.Errorf("failed to cast to string from nil")
+	}
 	switch v.Type().Kind() {
 	case reflect.Int, reflect.Int8, reflect.Int16, reflect.Int32, reflect.Int64:
 		return reflect.ValueOf(fmt.Sprint(v.Int())), nil
@@ -226,6 +258,9 @@ func castString(v reflect.Value) (reflect.Value, error) {
 }
 
 func castBool(v reflect.Value) (reflect.Value, error) {
+	if !v.IsValid() {
+		return nilValue, fmt.Errorf("failed to cast to bool from nil")
+	}
 	switch v.Type().Kind() {
 	case reflect.Int, reflect.Int8, reflect.Int16, reflect.Int32, reflect.Int64:
 		switch v.Int() {
@@ -282,6 +317,9 @@ func castBool(v reflect.Value) (reflect.Value, error) {
 }
 
 func castFloat(v reflect.Value) (reflect.Value, error) {
+	if !v.IsValid() {
+		return nilValue, fmt.Errorf("failed to cast to float64 from nil")
+	}
 	switch v.Type().Kind() {
 	case reflect.Int, reflect.Int8, reflect.Int16, reflect.Int32, reflect.Int64:
 		return reflect.ValueOf(float64(v.Int())), nil
@@ -323,6 +361,9 @@ func castFloat(v reflect.Value) (reflect.Value, error) {
 }
 
 func castArray(t reflect.Type, v reflect.Value) (reflect.Value, error) {
+	if !v.IsValid() {
+		return nilValue, fmt.Errorf("failed to cast to array from nil")
+	}
 	kind := v.Type().Kind()
 	if kind == reflect.Interface {
 		return castArray(t, reflect.ValueOf(v.Interface()))
@@ -330,7 +371,7 @@ func castArray(t reflect.Type, v reflect.Value) (reflect.Value, error) {
 	if kind != reflect.Slice && kind != reflect.Array {
 		return nilValue, fmt.Errorf("failed to cast to array from %s", kind)
 	}
-	if t.Elem() == v.Type().Elem() {
+	if v.Type().AssignableTo(t) {
 		return v, nil
 	}
 	if t.Len() != v.Len() {
@@ -348,6 +389,9 @@ func castArray(t reflect.Type, v reflect.Value) (reflect.Value, error) {
 }
 
 func castSlice(t reflect.Type, v reflect.Value) (reflect.Value, error) {
+	if !v.IsValid() {
+		return nilValue, fmt.Errorf("failed to cast to slice from nil")
+	}
 	kind := v.Type().Kind()
 	if kind == reflect.Interface {
 		return castSlice(t, reflect.ValueOf(v.Interface()))
@@ -355,7 +399,7 @@ func castSlice(t reflect.Type, v reflect.Value) (reflect.Value, error) {
 	if kind != reflect.Slice && kind != reflect.Array {
 		return nilValue, fmt.Errorf("failed to cast to slice from %s", kind)
 	}
-	if t.Elem() == v.Type().Elem() {
+	if v.Type().AssignableTo(t) {
 		return v, nil
 	}
 	ret := reflect.MakeSlice(t, v.Len(), v.Len())
@@ -370,6 +414,9 @@ func castSlice(t reflect.Type, v reflect.Value) (reflect.Value, error) {
 }
 
 func castMap(t reflect.Type, v reflect.Value) (reflect.Value, error) {
+	if !v.IsValid() {
+		return nilValue, fmt.Errorf("failed to cast to map from nil")
+	}
 	ret := reflect.MakeMap(t)
 	switch v.Type().Kind() {
 	case reflect.Map:
@@ -398,6 +445,9 @@ func castMap(t reflect.Type, v reflect.Value) (reflect.Value, error) {
 }
 
 func castStruct(t reflect.Type, v reflect.Value) (reflect.Value, error) {
+	if !v.IsValid() {
+		return nilValue, fmt.Errorf("failed to cast to struct from nil")
+	}
 	ret := reflect.New(t).Elem()
 	switch v.Type().Kind() {
 	case reflect.Map:
@@ -410,7 +460,7 @@ func castStruct(t reflect.Type, v reflect.Value) (reflect.Value, error) {
 			}
 			fieldName := k.String()
 			field, ok := t.FieldByName(fieldName)
-			if ok {
+			if ok && field.PkgPath == "" {
 				value, err := castValue(field.Type, iter.Value())
 				if err != nil {
 					return nilValue, err
@@ -421,8 +471,17 @@ func castStruct(t reflect.Type, v reflect.Value) (reflect.Value, error) {
 		return ret, nil
 	case reflect.Struct:
 		for i := 0; i < v.Type().NumField(); i++ {
-			name := v.Type().Field(i).Name
-			ret.FieldByName(name).Set(v.FieldByName(name))
+			srcField := v.Type().Field(i)
+			dstField := ret.FieldByName(srcField.Name)
+			if srcField.PkgPath != "" || !dstField.IsValid() || !dstField.CanSet() {
+				// no exported field of that name on both sides
+				continue
+			}
+			value, err := castValue(dstField.Type(), v.Field(i))
+			if err != nil {
+				return nilValue, err
+			}
+			dstField.Set(value)
 		}
 		return ret, nil
 	case reflect.Interface:
